@@ -16,8 +16,26 @@ def run(ctx):
     n = ctx.n(500, 12000)
     cases = P.build_cases(ctx, n, gen_kwargs=dict(size=7), nsub_choices=(1, 1, 2, 3), compressed=(False, False, True),
                           versions=(33, 33, 33, 25, 19, 28), editions=(4, 4, 3, 2))
+    # character fields wider than 32 bytes (205YYY / 208YYY), to be filled with much shorter strings below
+    rng = ctx.rng
+    for k in range(ctx.n(16, 300)):
+        y1, y2 = rng.choice([33, 40, 48, 64, 100]), rng.choice([34, 40, 50])
+        ids = rng.choice([[1015, 205000 + y1, 12101, 208000 + y2, 1019, 208000, 20003],
+                          [205000 + y1, 1001, 205000 + y2],
+                          [208000 + y2, 1015, 1019, 208000, 1015, 12101],
+                          [101002, 205000 + y1, 1001]])
+        comp = rng.random() < 0.35
+        cases.append({'ids': ids, 'version': 33, 'edition': 4, 'nsub': rng.choice([1, 2, 3]), 'compressed': comp, 'forced': '-',
+                      'seed': rng.randrange(1, 2 ** 32), 'maxrep': 3, 'features': {'wide-character-field': 1}, 'shared': comp})
     P.attach_templates(cases)
     P.run_gen(cases)
+    import random
+    for c in cases:
+        if c.get('val_toks') and (c['features'].get('wide-character-field') or rng.random() < 0.3):
+            # derived from the case's own seed so that a replay varies the same strings the same way
+            if P.vary_string_lengths(c, random.Random(c['seed'] ^ 0x5A5A5A)):
+                c['features']['strings-shorter-or-longer-than-field'] = 1
+                c['vary_strings'] = True
     P.run_encode(cases)
     P.run_decode(cases)
     for c in cases:
@@ -30,7 +48,8 @@ def run(ctx):
         nontriv = any(i >= 100000 for i in c['ids'])
         ctx.count((tuple(c['ids']), c['seed'], c['edition']), nontriv)
         case = {'ids': c['ids'], 'seed': c['seed'], 'forced': c['forced'], 'nsub': c['nsub'],
-                'version': c['version'], 'edition': c['edition']}
+                'version': c['version'], 'edition': c['edition'], 'compressed': c['compressed'],
+                'vary_strings': bool(c.get('vary_strings'))}
         eq, detail = P.compare_encode(c)
         if c['impl_enc'][0] != 'ok':
             ctx.dist['encoder-refused-%d' % c['impl_enc'][1]] += 1
@@ -63,8 +82,13 @@ def run(ctx):
 def replay(ctx, rec):
     c = rec['case']
     cases = [{'ids': c['ids'], 'version': c.get('version', 33), 'edition': c.get('edition', 4), 'nsub': c['nsub'],
-              'compressed': False, 'forced': c['forced'], 'seed': c['seed'], 'maxrep': 3, 'features': {}, 'shared': False}]
-    P.attach_templates(cases); P.run_gen(cases); P.run_encode(cases); P.run_decode(cases)
+              'compressed': c.get('compressed', False), 'forced': c['forced'], 'seed': c['seed'], 'maxrep': 3, 'features': {},
+              'shared': c.get('compressed', False)}]
+    P.attach_templates(cases); P.run_gen(cases)
+    if c.get('vary_strings'):
+        import random
+        P.vary_string_lengths(cases[0], random.Random(c['seed'] ^ 0x5A5A5A))
+    P.run_encode(cases); P.run_decode(cases)
     eq, detail = P.compare_encode(cases[0])
     if not eq:
         ctx.violation({'kind': 'C02-encode-mismatch', 'case': c, 'detail': detail}, detail)
